@@ -385,5 +385,27 @@ impl ConcatenationProof {
     //@end
 }
 
+// ---- dispatch: protocol/aggregate_signature/signature.rs ---------------------------------------------------------------
+#[verifier::external_body] pub struct AncillaryVerifierData { _p: core::marker::PhantomData<u8> }
+#[verifier::external_body] pub struct GenesisVerificationKeyBundle { _p: core::marker::PhantomData<u8> }
+pub struct AggregateVerificationKey { pub concatenation_aggregate_verification_key: AggregateVerificationKeyForConcatenation }
+impl AggregateVerificationKey {
+    //@extract file=mithril-stm/src/protocol/aggregate_signature/aggregate_key.rs fn=to_concatenation_aggregate_verification_key
+    //@ rewrite /&AggregateVerificationKeyForConcatenation<D>/ => /&AggregateVerificationKeyForConcatenation/
+    //@ spec ensures *ret == self.concatenation_aggregate_verification_key
+    //@end
+}
+pub enum AggregateSignature { Concatenation(ConcatenationProof) }
+impl AggregateSignature {
+    //@extract file=mithril-stm/src/protocol/aggregate_signature/signature.rs fn=verify within="AggregateSignature<D>"
+    //@ strip_cfg future_snark
+    //@ rewrite /avk: &AggregateVerificationKey<D>/ => /avk: &AggregateVerificationKey/
+    //@ rewrite /StmResult<\(\)>/ => /Result<(), AggregationError>/
+    //@ spec requires self is Concatenation ==> flat(self->Concatenation_0.signatures@, self->Concatenation_0.signatures@.len() as int).len() <= usize::MAX
+    //@ spec ensures ret is Ok && self is Concatenation ==> preliminary_ok(&self->Concatenation_0, msg@ + commitment_root(&avk.concatenation_aggregate_verification_key.mt_commitment), &avk.concatenation_aggregate_verification_key, parameters)
+    //@ spec     && bls_aggregate_valid(msg@ + commitment_root(&avk.concatenation_aggregate_verification_key.mt_commitment), member_vks(&self->Concatenation_0), member_sigmas(&self->Concatenation_0))
+    //@end
+}
+
 } // verus!
 fn main() {}
